@@ -310,11 +310,13 @@ impl<T> RawTable<T> {
             // state from before the call is valid again.
             let before = lo.items.clone();
             lo.reflect_remove(&bucket.bucket);
-            let still_occupied = lo.table.replace_bucket_with(bucket.bucket, f);
+            // For zero-sized `T` the cached iterator is rebuilt after the call instead; the
+            // guard makes sure that also happens if `f` panics.
+            let lo = RefreshIfZstOnDrop(lo);
+            let still_occupied = lo.0.table.replace_bucket_with(bucket.bucket, f);
             if still_occupied {
-                lo.items = before;
+                lo.0.items = before;
             }
-            lo.refresh_if_zst();
             still_occupied
         } else {
             unreachable!("invalid bucket state");
@@ -614,6 +616,14 @@ impl<T> OldTable<T> {
         if Self::IS_ZST {
             self.items = self.table.iter();
         }
+    }
+}
+
+struct RefreshIfZstOnDrop<'a, T>(&'a mut OldTable<T>);
+
+impl<T> Drop for RefreshIfZstOnDrop<'_, T> {
+    fn drop(&mut self) {
+        unsafe { self.0.refresh_if_zst() }
     }
 }
 
